@@ -267,6 +267,55 @@ theorem resolveAndIngest_step (fs : FS) (cwd : PathC) (fuel : Nat) (prog : Progr
             exact ⟨r, loc, text, rfl, hck, h⟩
     exact key _ h
 
+/-- `resolveAndIngest_step` with the read made explicit: the text handed to `preprocess` is the content of the checked
+location -/
+theorem resolveAndIngest_step_read (fs : FS) (cwd : PathC) (fuel : Nat) (prog : Program) (path : String)
+    (tr : List Event) (ops : List RawOp) (tr' : List Event)
+    (h : resolveAndIngest fs cwd (fuel + 1) prog path tr = .ok (ops, tr')) :
+    ∃ r loc text, (match prog.root with
+            | some r => Except.ok r
+            | none => Root.new fs cwd (prog.sources.headD (PathC.ofString path))) = .ok r ∧
+      r.check fs (cwd.join ((baseDir prog).join (PathC.ofString path))) = .ok loc ∧
+      fs.readText loc = some text ∧
+      preprocess fs cwd fuel { root := some r, sources := prog.sources ++ [(baseDir prog).join (PathC.ofString path)] } text
+        (tr ++ [.check (cwd.join ((baseDir prog).join (PathC.ofString path))) true] ++ [.read loc]) = .ok (ops, tr') := by
+  simp only [resolveAndIngest] at h
+  split at h
+  · simp at h
+  · have key : ∀ (root : Except IngErr Root),
+        (match root with
+          | Except.error e => Except.error e
+          | Except.ok r =>
+            match Root.check fs r (cwd.join ((baseDir prog).join (PathC.ofString path))) with
+            | Except.error e => Except.error e
+            | Except.ok loc =>
+              match fs.readText loc with
+              | none => Except.error (IngErr.io "reading file before parsing")
+              | some text =>
+                preprocess fs cwd fuel { root := some r, sources := prog.sources ++ [(baseDir prog).join (PathC.ofString path)] } text
+                  (tr ++ [Event.check (cwd.join ((baseDir prog).join (PathC.ofString path))) true] ++ [Event.read loc])) =
+          Except.ok (ops, tr') →
+        ∃ r loc text, root = .ok r ∧
+          r.check fs (cwd.join ((baseDir prog).join (PathC.ofString path))) = .ok loc ∧
+          fs.readText loc = some text ∧
+          preprocess fs cwd fuel { root := some r, sources := prog.sources ++ [(baseDir prog).join (PathC.ofString path)] } text
+            (tr ++ [.check (cwd.join ((baseDir prog).join (PathC.ofString path))) true] ++ [.read loc]) = .ok (ops, tr') := by
+      intro root h
+      cases root with
+      | error e => simp at h
+      | ok r =>
+        simp only at h
+        cases hck : Root.check fs r (cwd.join ((baseDir prog).join (PathC.ofString path))) with
+        | error e => simp [hck] at h
+        | ok loc =>
+          simp only [hck] at h
+          cases hrd : fs.readText loc with
+          | none => simp [hrd] at h
+          | some text =>
+            simp only [hrd] at h
+            exact ⟨r, loc, text, rfl, hck, hrd, h⟩
+    exact key _ h
+
 theorem main_inv (fs : FS) (cwd : PathC) : ∀ fuel : Nat,
     (∀ prog src tr ops tr', preprocess fs cwd fuel prog src tr = .ok (ops, tr') → Inv fs cwd prog tr tr') ∧
     (∀ prog nodes tr ops tr', nodesLoop fs cwd fuel prog nodes tr = .ok (ops, tr') → Inv fs cwd prog tr tr') ∧
